@@ -172,12 +172,7 @@ func main() {
 	write(filepath.Join(xt, "windows", "consts.go"), "package windows\n\n"+
 		constsMatching(filepath.Join(*sys, "windows", "types_windows.go"), regexp.MustCompile(`^FILE_(ACTION|NOTIFY_CHANGE)_`)))
 
-	kq := load(filepath.Join(*repo, "backend_kqueue.go"))
-	write(filepath.Join(xt, "kq.go"), "package xtab\n\nimport unix \"verif/gen/xtab/bsdunix\"\n\ntype kqueue struct{}\n\n"+
-		kq.constDecl("noteAllEvents")+"\n\n"+kq.fn("kqueue", "newEvent")+"\n\n"+kq.fn("kqueue", "xSupports")+"\n")
-	write(filepath.Join(xt, "bsdunix", "consts.go"), "package bsdunix\n\n"+
-		constsMatching(filepath.Join(*sys, "unix", "zerrors_freebsd_amd64.go"), regexp.MustCompile(`^NOTE_`)))
-
+	// (the kqueue functions are taken from the full transplant of that back end, verif/gen/kq)
 	fen := load(filepath.Join(*repo, "backend_fen.go"))
 	write(filepath.Join(xt, "fen.go"), "package xtab\n\ntype fen struct{}\n\n"+fen.fn("fen", "xSupports")+"\n")
 
@@ -193,11 +188,8 @@ func WinNewEvent(name string, mask uint32) Event  { return (&readDirChangesW{}).
 func WinToWindowsFlags(mask uint64) uint32         { return (&readDirChangesW{}).toWindowsFlags(mask) }
 func WinToFSnotifyFlags(action uint32) uint64      { return (&readDirChangesW{}).toFSnotifyFlags(action) }
 func WinSupports(op Op) bool                       { return (&readDirChangesW{}).xSupports(op) }
-func KqNewEvent(name, link string, mask uint32) Event { return (&kqueue{}).newEvent(name, link, mask) }
-func KqSupports(op Op) bool                        { return (&kqueue{}).xSupports(op) }
 func FenSupports(op Op) bool                       { return (&fen{}).xSupports(op) }
 
-const KqNoteAllEvents = noteAllEvents
 const (
 	XOpen       = xUnportableOpen
 	XRead       = xUnportableRead
